@@ -86,8 +86,9 @@ fn alphabet<Q: QueueApi>(u: u32, r: i64, m: &Model, wide: bool) -> Vec<Op> {
     }
     v.push(Op::Convert);
     v.push(Op::CloneSwap);
-    v.push(Op::CloneFrom { pre: vec![] });
-    v.push(Op::CloneFrom { pre: vec![(7, 1), (8, 0), (9, 2), (10, 1), (11, 0)] });
+    v.push(Op::CloneFrom { pre: vec![], into_self: false });
+    v.push(Op::CloneFrom { pre: vec![(0, 1), (1, 0)], into_self: true });
+    v.push(Op::CloneFrom { pre: vec![(7, 1), (8, 0), (9, 2), (10, 1), (11, 0)], into_self: false });
     v.push(Op::Drain { front: 1, back: 1, leak: false });
     v.push(Op::Clear);
     v.push(Op::Shrink);
